@@ -201,6 +201,15 @@ func immutableGlobal(g *ssa.Global) bool {
 				if b, isB := x.Call.Value.(*ssa.Builtin); isB && (b.Name() == "len" || b.Name() == "cap") {
 					continue
 				}
+				// handed to a function of the same package: what that function does with its parameter counts
+				if callee := x.Call.StaticCallee(); callee != nil && callee.Pkg == g.Pkg && len(callee.Blocks) > 0 && x.Call.Value != v {
+					for i, a := range x.Call.Args {
+						if a == v && i < len(callee.Params) {
+							ref(callee.Params[i], depth+1)
+						}
+					}
+					continue
+				}
 				// a function value loaded from the table and called: the call is a read of the table
 				if x.Call.Value == v && !x.Call.IsInvoke() {
 					used := false
